@@ -63,6 +63,9 @@ func (p *Program) runInit(sp *ssa.Package) (facts []*T, notes []string) {
 			continue
 		}
 		gn, gs := globalNames(g)
+		for _, name := range gn {
+			p.immutableGlobal[name] = true
+		}
 		t := deref(g.Type())
 		var vals []*T
 		ok := true
